@@ -1,6 +1,7 @@
 // C07 -- MultiTrainDataGenerator yields every item of every source exactly once, in per-source order, and terminates
 use vstd::prelude::*;
 verus! {
+//@include specs/err.rs
 // ---------------------------------------------------------------- trusted prelude
 /// one item of a source (`anyhow::Result<TrainData>` in the crate); opaque to the generator
 pub struct MaybeTrainData { _p: () }
@@ -18,6 +19,11 @@ impl TrainDataGenerator {
             old(self).rem().len() == 0 ==> r.is_none() && final(self).rem() == old(self).rem(),
             old(self).rem().len() > 0 ==> r == Some(old(self).rem()[0]) && final(self).rem() == old(self).rem().skip(1),
     { unimplemented!() }
+    /// ExactSizeIterator::len: the number of items still to come
+    #[verifier::external_body]
+    pub fn len(&self) -> (r: usize)
+        ensures r == self.rem().len(),
+    { unimplemented!() }
 }
 
 /// rand_chacha::ChaCha8Rng, rand::distr::weighted::WeightedIndex: external; a sample is SOME index of the weight vector
@@ -33,6 +39,10 @@ impl WeightedIndex {
     { unimplemented!() }
 }
 impl ChaCha8Rng {
+    #[verifier::external_body]
+    pub fn seed_from_u64(seed: u64) -> (r: ChaCha8Rng) { unimplemented!() }
+    #[verifier::external_body]
+    pub fn from_os_rng() -> (r: ChaCha8Rng) { unimplemented!() }
     #[verifier::external_body]
     pub fn sample(&mut self, d: WeightedIndex) -> (r: usize)
         ensures r < d.n,
@@ -51,6 +61,17 @@ fn vt_gather(w: &Vec<usize>, idx: &Vec<usize>) -> (r: Vec<usize>)
     requires forall|k: int| 0 <= k < idx.len() ==> (#[trigger] idx[k]) < w.len(),
     ensures r.len() == idx.len(), forall|k: int| 0 <= k < idx.len() ==> #[trigger] r[k] == w[idx[k] as int],
 { unimplemented!() }
+/// `v.iter().any(f)`: closure postconditions are usable in the forward direction only, hence both implications
+#[verifier::external_body]
+fn vt_any<F: Fn(&usize) -> bool>(v: &Vec<usize>, f: F) -> (r: bool)
+    requires forall|x: &usize| #[trigger] f.requires((x,)),
+    ensures
+        r ==> exists|k: int| 0 <= k < v.len() && f.ensures((&v[k],), true),
+        !r ==> forall|k: int| 0 <= k < v.len() ==> f.ensures((&#[trigger] v[k],), false),
+{ unimplemented!() }
+/// `v.iter().sum()`: some usize (total_len is informational; overflow of the sum is not modelled)
+#[verifier::external_body]
+fn vt_sum(v: &Vec<usize>) -> (r: usize) { unimplemented!() }
 #[verifier::external_body]
 fn vt_all_true(f: &Vec<bool>) -> (r: bool)
     ensures r == !(exists|k: int| 0 <= k < f@.len() && !#[trigger] f@[k]),
@@ -141,6 +162,61 @@ impl vstd::std_specs::cmp::PartialEqSpecImpl for GenerationStrategy {
 }
 
 impl MultiTrainDataGenerator {
+//@unit src/data/loading.rs fn new impl=^impl\sMultiTrainDataGenerator$
+//@rule R4
+//@rule R21
+//@rule R6_any
+//@rule R6_sum
+    pub fn new(
+        generators: Vec<TrainDataGenerator>,
+        strategy: GenerationStrategy,
+        seed: Option<u64>,
+    ) -> (res: VtResult<Self>)
+        ensures
+            // rejected exactly for the weighted strategy with an empty source
+            res.is_err() <==> (strategy == GenerationStrategy::Weighted && exists|k: int| 0 <= k < generators.len() && (#[trigger] generators[k]).rem().len() == 0),
+            // otherwise: the sources as given, nothing consumed, and (with at least one source) the invariant of `next`
+            res.is_ok() ==> res.unwrap().rems() == generators@.map(|k: int, g: TrainDataGenerator| g.rem()) && res.unwrap().strat() == strategy
+                && (generators.len() > 0 ==> res.unwrap().wf()),
+    {
+        let mut lengths: Vec<usize> = Vec::new();
+        for g in it: generators.iter()
+            invariant
+                lengths.len() == it.index@, it.index@ <= generators.len(), it.seq().len() == generators.len(),
+                forall|k: int| 0 <= k < generators.len() ==> *#[trigger] it.seq()[k] == generators[k],
+                forall|k: int| 0 <= k < lengths.len() ==> #[trigger] lengths[k] == generators[k].rem().len(),
+        {
+            proof { assert(*g == generators[it.index@ as int]); }
+            let vt_e = { g.len() };
+            lengths.push(vt_e);
+        }
+        if strategy == GenerationStrategy::Weighted && vt_any(&lengths, |l: &usize| -> (b: bool) ensures b == (*l == 0) { *l == 0 }) {
+            return Err(vt_anyhow());
+        }
+        proof {
+            if strategy == GenerationStrategy::Weighted {
+                assert forall|k: int| 0 <= k < generators.len() implies (#[trigger] generators[k]).rem().len() != 0 by {
+                    assert(lengths[k] == generators[k].rem().len());
+                }
+            }
+        }
+        let finished = vec![false; generators.len()];
+        Ok(MultiTrainDataGenerator {
+            generators,
+            total_len: vt_sum(&lengths),
+            lengths,
+            strategy,
+            idx: 0,
+            rng: if let Some(seed) = seed {
+                ChaCha8Rng::seed_from_u64(seed)
+            } else {
+                ChaCha8Rng::from_os_rng()
+            },
+            finished,
+        })
+    }
+//@end
+
 //@unit src/data/loading.rs fn all_finished impl=^impl\sMultiTrainDataGenerator$
 //@rule R6_all_deref
     fn all_finished(&self) -> (r: bool)
